@@ -165,7 +165,7 @@ OnApply(ev, idx) ==
                 \o If(f.A # 1, V("C04", idx, ev.r, "action invoked while actions are disabled", 0, 0))
                 \o If(~VisibleF(f), V("C04", idx, ev.r, "action invoked for a rule hidden from the control", 0, 0))
                 \o If(ev.af # f.af, V("C13", idx, ev.r, "action family differs from the one in effect", ev.af, f.af))
-                \o If((wantsInput /\ kind \notin {1, 3, 5, 6}) \/ (~wantsInput /\ kind \notin {2, 4}),
+                \o If((wantsInput /\ kind \notin {1, 3, 5, 6}) \/ (~wantsInput /\ kind \notin {2, 4, 7}),
                       V("C04", idx, ev.r, "no such action attached to this rule", kind, ev.k))
                 \o If(f.ph # 1, V("C08", idx, ev.r, "action not between start and success/failure", f.ph, 0))
                 \o If(f.na # 0, V("C04", idx, ev.r, "more than one action call for one match", f.na + 1, 0))
